@@ -164,7 +164,6 @@ func (w *c22world) step(r *rand.Rand) string {
 		if err := w.batch.Write(); err != nil {
 			return "batch Write error " + err.Error()
 		}
-		w.batch.Reset()
 		for _, o := range w.pending {
 			if o.del {
 				w.del(o.k)
@@ -172,7 +171,14 @@ func (w *c22world) step(r *rand.Rand) string {
 				w.put(o.k, o.v)
 			}
 		}
-		w.batch, w.pending = nil, nil
+		if r.Intn(4) == 0 {
+			// no Reset: the batch keeps its operations, a later Write applies them again (over whatever happened meanwhile)
+			w.log[len(w.log)-1] = "batch write (batch kept without Reset)"
+			w.stats["batch_written_and_kept"]++
+		} else {
+			w.batch.Reset()
+			w.batch, w.pending = nil, nil
+		}
 		w.stats["batch_write"]++
 	case c < 53: // flush
 		w.log = append(w.log, "flush")
@@ -339,7 +345,7 @@ func (w *c22world) afterOp(r *rand.Rand) string {
 }
 
 func runC22(c *ev.Ctx) {
-	c.Rule = "random sequences of 80 operations on flushable.Wrap(X) and flushable.NewLazy(X), X in {memory, LevelDB, Pebble} (X pre-filled for Wrap): put, delete, batch put/delete/write (the caller's key and value buffers are overwritten right after every Put and batch.Put), InitUnderlyingDb on lazy stores whose database already holds data, flush, drop-not-flushed, snapshots (get/iterate later), iterators created BEFORE later writes and advanced afterwards, full iterations for random (prefix,start) incl. nil, ff and a\\xff. " +
+	c.Rule = "random sequences of 80 operations on flushable.Wrap(X) and flushable.NewLazy(X), X in {memory, LevelDB, Pebble} (X pre-filled for Wrap): put, delete, batch put/delete/write (a quarter of the written batches is kept without Reset and written again later; the caller's key and value buffers are overwritten right after every Put and batch.Put), InitUnderlyingDb on lazy stores whose database already holds data, flush, drop-not-flushed, snapshots (get/iterate later), iterators created BEFORE later writes and advanced afterwards, full iterations for random (prefix,start) incl. nil, ff and a\\xff. " +
 		"Oracle after EVERY operation: NotFlushedPairs == number of distinct keys written since the last flush/drop, Get/Has of 6 keys; iterations equal the model (underlying overlaid with unflushed writes, ascending); after Flush the raw underlying store equals the view; after Drop the view equals the underlying; snapshots keep their creation-time content; " +
 		"iterators created before writes are held to the weak contract only (strictly ascending, inside prefix/start, each pair was the key's value at some time since creation, untouched keys are not lost). " +
 		"non-trivial = distinct sequences containing a tombstone over an underlying key, a flush, a drop, a snapshot read after divergence and an iteration with a prefix ending in 0xff"
